@@ -218,6 +218,7 @@ def keep_old_merge(ctx):
     from . import c05
     c05.single_pass_merge(ctx)
     c05.subsequence(ctx)
+    c05.no_extra_master_secrets(ctx)
 
 
 @rule('C04', 'no-keep-old-latest-only', configs=('default', 'p256'))
